@@ -6,3 +6,4 @@ INVARIANT LayoutOK
 INVARIANT ForwardOK
 INVARIANT SeqOK
 INVARIANT RankOK
+INVARIANT OtherOK
